@@ -190,7 +190,7 @@ def _plan(tier):
 
 def run(rep: Report):
     tier = rep.tier
-    opts = {"prove_timeout_ms": 10000, "fork_timeout_ms": 2000, "seed": rep.seed, "scenario_wall_s": 240 if tier == "quick" else 1200}
+    opts = {"prove_timeout_ms": 10000, "fork_timeout_ms": 2000, "seed": rep.seed, "scenario_wall_s": 900 if tier == "quick" else 1200}
     run_plan(rep, _plan(tier), SCENARIOS, opts)
     rep.bounds = {"atoms": "<=4 (5 in thorough)", "index tuples": "every ordered tuple of k<=3 distinct indices, each written from the front or from the end (negative), any mixture", "adjacency": "every symmetric relation on 3 (quick) / 4 atoms", "size filters": list(SIZES), "defaults": "None, ndarray, list"}
     rep.assumptions = ["array contents symbolic (term identity = bit-for-bit); species and tags are distinct markers", "ase neighbor_list replaced by its contract: it returns exactly the ordered pairs of the adjacency relation"]
